@@ -476,6 +476,10 @@ func runC07(c *eng.Ctx) {
 		}
 		c.R.End(idx, eng.Hash("c07-dag4", blk, c.Seed), false)
 	}
+	// --- every unusual declaration form x every dependency slot: valid, and captive through that slot ---
+	runSlotSpecs(cr, map[string]bool{"valid": true, "captive": true}, func(idx int, s *Spec, m *Model, kind string) {
+		exec(idx, s, m, kind, false)
+	}, func(idx int, s *Spec) { c.R.End(idx, eng.Hash("c07-slot", s.Canon()), true) })
 	// --- directed: registrations with several identities of which one was removed again ---
 	rm := func(t, key string) Reg { return Reg{Remove: true, RmType: t, RmKey: key, Tail: true} }
 	var directed []*Spec
@@ -820,6 +824,8 @@ func runC08(c *eng.Ctx) {
 		c.R.Begin(idx)
 		exec(idx, s, NewModel(s), "directed")
 	}
+	// every unusual declaration form x every dependency slot: valid, and with that slot's provider missing
+	runSlotSpecs(cr, map[string]bool{"valid": true, "missing": true}, exec, nil)
 	n := c.Pick(2000, 50000)
 	for k := 0; k < n; k++ {
 		idx, mine := cr.next()
